@@ -353,6 +353,8 @@ class Interp:
         self._len_source = {}
         self.ext_summaries = {}   # "urllib.parse.unquote" -> fn(interp, pos, kw, node)
         self.hole_free_of = ""    # characters the symbolic holes are assumed not to contain
+        self.vfs = None           # scenario mode: {path name: MemFile content}; open()/unlink act on it
+        self.construct_real = set()   # package classes whose constructor is evaluated (their __init__ run on a fresh object)
         self.trace = None
         self.choices = []
         self.pending = []
@@ -604,6 +606,8 @@ class Interp:
             raise ReturnEx(self.eval(st.value, env) if st.value is not None else None)
         if isinstance(st, ast.Raise):
             name, msg = "Exception", ""
+            if st.exc is None and env.get("__handling__") is not None:
+                raise env["__handling__"]
             if st.exc is not None:
                 e = st.exc
                 if isinstance(e, ast.Call):
@@ -649,10 +653,15 @@ class Interp:
                     self.exec_block(st.body, env)
                 except RaiseEx as e:
                     for h in st.handlers:
-                        if h.type is None or e.exc in norm(h.type) or norm(h.type) in ("Exception", "BaseException"):
+                        if h.type is None or e.exc.split(".")[-1] in norm(h.type) or norm(h.type) in ("Exception", "BaseException"):
                             if h.name:
                                 env[h.name] = Opaque(e.exc, "exc")
-                            self.exec_block(h.body, env)
+                            saved_ = env.get("__handling__")
+                            env["__handling__"] = e
+                            try:
+                                self.exec_block(h.body, env)
+                            finally:
+                                env["__handling__"] = saved_
                             break
                     else:
                         raise
@@ -664,12 +673,19 @@ class Interp:
             return
         if isinstance(st, ast.With):
             # context managers are transparent: `as` binds what the expression evaluates to (files, cursors, streams)
+            hosts = []
             for item in st.items:
                 v = self.eval(item.context_expr, env)
+                if hasattr(v, "ai_call"):
+                    hosts.append(v)
                 if item.optional_vars is not None:
                     self.assign(item.optional_vars, v, env)
                 self.trace.events.append(("with", v, st))
-            self.exec_block(st.body, env)
+            try:
+                self.exec_block(st.body, env)
+            finally:
+                for h in reversed(hosts):
+                    h.ai_call(self, "__exit__", [], {}, st)
             return
         if isinstance(st, ast.Assert):
             return
@@ -760,7 +776,9 @@ class Interp:
                 raise Unsupported("subscript store on %r" % (base,))
         elif isinstance(target, ast.Attribute):
             base = self.eval(target.value, env)
-            if isinstance(base, (Opaque, Sym)):
+            if hasattr(base, "ai_setattr"):
+                base.ai_setattr(self, target.attr, v)
+            elif isinstance(base, (Opaque, Sym)):
                 base.attrs[target.attr] = v
                 self.trace.events.append(("setattr", base, target.attr, v, target))
             elif isinstance(base, ModVal) and base.name in self.proj.modules:
@@ -846,6 +864,9 @@ class Interp:
 
     def e_Attribute(self, node, env):
         base = self.eval(node.value, env)
+        if hasattr(base, "ai_getattr"):
+            v_ = base.ai_getattr(self, node.attr)
+            return BoundMethod(base, node.attr) if v_ is NotImplemented else v_
         if isinstance(base, BoundMethod) and isinstance(base.base, (Opaque, Sym)):
             base = Opaque("%s.%s" % (base.base.name, base.attr), "obj")
         if isinstance(base, ModVal):
@@ -906,6 +927,15 @@ class Interp:
                             v = self.folder.try_fold(vals[0], k.module.name, default=None)
                             if v is not None:
                                 return _thaw(v) if not isinstance(v, (str, int, float)) else v
+                            ce_ = self._class_env(k)
+                            if node.attr in ce_:
+                                return ce_[node.attr]
+                            if isinstance(vals[0], ast.Call) and not vals[0].args and not vals[0].keywords:
+                                # NAME = object(): one sentinel per class constant, identity is meaningful
+                                key_ = (k.qual, node.attr)
+                                if key_ not in self._mod_objs:
+                                    self._mod_objs[key_] = Opaque("%s.%s" % (k.name, node.attr), "obj")
+                                return self._mod_objs[key_]
                         if vals:
                             break
             if isinstance(base, Sym) and base.kind == "Feature":
@@ -1383,6 +1413,11 @@ class Interp:
         return self._getitem(base, key, node, env)
 
     def _getitem(self, base, key, node, env):
+        if hasattr(base, "as_dict") and isinstance(key, str):
+            try:
+                return base.get(key)
+            except IndexError:
+                raise RaiseEx("IndexError", "No item with that key", node)
         if isinstance(key, slice) and key.step is None:
             if isinstance(base, (list, tuple, str)):
                 return base[key]
@@ -1483,6 +1518,30 @@ class Interp:
             return o
         return v
 
+    def _class_env(self, k):
+        """Class-level constants that refer to earlier ones (SQL = "... %d" % _LEVEL): the class body's simple assignments
+        evaluated in order."""
+        cache = self.__dict__.setdefault("_class_envs", {})
+        if k.qual not in cache:
+            env = {"__module__": k.module.name}
+            out = {}
+            cache[k.qual] = out
+            n_ev = len(self.trace.events) if getattr(self, "trace", None) is not None else 0
+            for n in k.node.body:
+                if isinstance(n, ast.Assign) and len(n.targets) == 1 and isinstance(n.targets[0], ast.Name):
+                    try:
+                        v = self.eval(n.value, env)
+                    except (Unsupported, RaiseEx):
+                        continue
+                    if isinstance(v, AStr):
+                        v = v.simplify()
+                    if isinstance(v, (str, int, float, tuple, list, dict)) or v is None:
+                        env[n.targets[0].id] = v
+                        out[n.targets[0].id] = v
+            if getattr(self, "trace", None) is not None:
+                del self.trace.events[n_ev:]
+        return cache[k.qual]
+
     def _class_method(self, kind, name):
         cs = [c for q, c in self.proj.classes.items() if q.split(".")[-1] == kind]
         if len(cs) != 1:
@@ -1570,6 +1629,8 @@ class Interp:
         for a in node.args:
             if isinstance(a, ast.Starred):
                 v = self.eval(a.value, env)
+                if isinstance(v, (StreamVal, HostIter)):
+                    v = list(v)
                 if not isinstance(v, (list, tuple)):
                     raise Unsupported("*%r" % (v,))
                 pos.extend(v)
@@ -1583,6 +1644,9 @@ class Interp:
                     for kk, vv in v.items():
                         if isinstance(kk, str) and not kk.startswith("__"):
                             kw[kk] = vv
+                elif hasattr(v, "as_dict"):
+                    for kk, vv in v.as_dict().items():
+                        kw[kk] = vv
                 elif isinstance(v, (Opaque, Sym)):
                     kw["**"] = v
                 else:
@@ -1716,7 +1780,7 @@ class Interp:
                     raise Unsupported("dict(%r)" % (v,))
             d.update(kw)
             return d
-        if name == "set":
+        if name in ("set", "frozenset"):
             v = pos[0] if pos else []
             if isinstance(v, Opaque):
                 return v
@@ -1731,10 +1795,21 @@ class Interp:
             return Opaque(name, "exc")
         if name in self.proj.classes:
             self.trace.events.append(("construct", name, pos, kw, node))
+            if name in self.construct_real:
+                self._n_objects = getattr(self, "_n_objects", 0) + 1
+                short = name.split(".")[-1]
+                o = Opaque("%s#%d" % (short, self._n_objects), short)
+                o.attrs["__class__"] = TypeVal(name)
+                init = self.proj.method(self.proj.classes[name], "__init__")
+                if init is not None:
+                    self.call_func(init, pos, kw, self_obj=o, node=node)
+                return o
             return Opaque(name.split(".")[-1], "obj")
         raise Unsupported("constructor %s" % name)
 
     def call_builtin(self, name, pos, kw, node, env):
+        if name == "frozenset":
+            return self.call_type("set", pos, kw, node)
         if name == "isinstance":
             return self.isinstance(pos[0], pos[1], node)
         if name == "len":
@@ -1819,6 +1894,9 @@ class Interp:
                 except ValueError:
                     raise RaiseEx("ValueError", "could not convert string to float: %r" % pos[0], node)
             raise Unsupported("float(%r)" % (pos[0],))
+        if name == "open" and pos and self.vfs is not None:
+            from .scenario import open_file
+            return open_file(self, pos, kw, node)
         if name == "open" and pos:
             # a file object: an opaque line source that remembers the path it was opened on and the mode
             mode = pos[1] if len(pos) > 1 else kw.get("mode", "r")
@@ -2005,6 +2083,9 @@ class Interp:
             raise Unsupported("extend with %r" % (v,))
 
     def call_method(self, base, attr, pos, kw, node, env):
+        if hasattr(base, "ai_call"):
+            # a host object of the analysis (database connection / cursor, in-memory file): its own model of the method
+            return base.ai_call(self, attr, pos, kw, node)
         if attr == "__getitem__" and len(pos) == 1 and not kw:
             return self._getitem(base, pos[0], node, env)
         if isinstance(base, TypeVal) and base.name == "dict" and attr == "fromkeys" and pos and isinstance(pos[0], (list, tuple, StreamVal, HostIter)):
